@@ -346,8 +346,7 @@ def meta_string_field(F, key):
             fields = dict(e[4])
             for n in strings:
                 x = mirq.init_of(fields.get(n, ('other', '')))
-                while x[0] in ('try', 'cast'):
-                    x = x[1]
+                x = mirq.peel_ok(x)
                 if x[0] == 'call' and x[1] in F.fns and keys_read(F.fn(x[1]))[-1:] == [key]:
                     hits.append(n)
         if len(set(hits)) != 1:
